@@ -192,7 +192,13 @@ def _worker(args):
     samples = []
     n_nontrivial = 0
     sim_s = 0.0
+    from . import simtime
+    armed = simtime.real_time()
     for idx in range(start, stop):
+        if simtime.real_time() - armed > 60:
+            # the last-resort watchdog guards against a single stuck run, not against a long chunk
+            faulthandler.dump_traceback_later(max(600, RUN_WALL_LIMIT * 4), exit=True)
+            armed = simtime.real_time()
         plan = eng.gen(prop, seed, idx, tier)
         if idx % ISOLATE_EVERY == ISOLATE_EVERY - 1 or eng.wants_isolation(plan):
             # a sample of the runs is executed in a freshly forked, pristine child: whatever the first call of a
